@@ -158,7 +158,13 @@ def check_idwords_stepid(ctx, only_stepid=False):
                                 and isinstance(x_.slice.elts[0], ast.Slice)     # T[:, k] is a column; T[newaxis, 0] / T[None, 0] is the first row
                                 for x_ in ast.walk(dcol[-1].value)):
                     both, one = False, True
-            if both:
+            # identity, not order: the dates are two-digit-year YYJJJ, which wrap from 99365 to 00001
+            ordering = [x for x in ast.walk(te) if isinstance(x, ast.Compare) and any(isinstance(o, (ast.Gt, ast.GtE, ast.Lt, ast.LtE)) for o in x.ops)
+                        and ('STIME' in norm(x) or 'SDATE' in norm(x) or 'time_date' in norm(x) or 'times' in norm(x))]
+            if ordering:
+                ctx.violation(Finding('R-STEPID', mmod.relpath, cls + '.__init__', st, 'the first record of the next time step is found with an ordering test (%s): the dates are YYJJJ with a two-digit year, so the '
+                                      'step after 99365 is 00001, which compares smaller; such a file reads as one step with all records as layers' % norm(ordering[0])[:60]), oid=fmt)
+            elif both:
                 ctx.ok('R-STEPID', fmt, w, tt[:80])
             elif one:
                 ctx.violation(Finding('R-STEPID', mmod.relpath, cls + '.__init__', st,
@@ -510,6 +516,31 @@ def check_scan_siblings(ctx, rule='R-SCANSIBS'):
     ctx.floor('end-of-file scans of the record readers', n, 3)
 
 
+def check_step_length(ctx, rule='R-STEPLEN'):
+    """record readers: the length of a time step is a difference of (date, time) stamps (timediff), never of the times alone - a step
+    that ends on the next day would come out negative"""
+    ctx.rule(rule, 'record readers: self.time_step is a timediff of (date, time) stamps, not a difference of the time words alone')
+    n = 0
+    for fmt in ('uamiv', 'wind', 'one3d', 'temperature', 'height_pressure'):
+        rp = CAMX + fmt + '/Read.py'
+        m = ctx.src.mod(rp)
+        for q, fn in sorted(m.functions.items()):
+            for st in iter_stmts(fn.body):
+                if isinstance(st, ast.Assign) and any(isinstance(t, ast.Attribute) and t.attr == 'time_step' and norm(t.value) == 'self' for t in st.targets):
+                    n += 1
+                    where = 'src/PseudoNetCDF/%s %s' % (rp, q)
+                    v = st.value
+                    calls = [c for c in walk_expr(v) if isinstance(c, ast.Call) and (dotted(c.func) or '').split('.')[-1] == 'timediff']
+                    if calls or 'date' in norm(v).lower():
+                        ctx.ok(rule, '%s:time_step' % q, where, norm(v)[:60])
+                    elif isinstance(v, ast.BinOp) and isinstance(v.op, ast.Sub) and 'time' in norm(v).lower():
+                        ctx.violation(Finding(rule, rp, q, st, 'the step length is %s: the dates of the two stamps are ignored, so a first step from 23:00 to 00:00 of the next day is -23 hours and the '
+                                              'reader fails on a file the memory-mapped reader accepts' % norm(v)[:50]))
+                    else:
+                        ctx.undec(rule, '%s:time_step' % q, where, 'step length %s' % norm(v)[:50])
+    ctx.floor('time-step lengths of the record readers', n, 3)
+
+
 def check_default_shape(ctx, rule='R-DEFSHAPE'):
     """both readers of a format give a file opened without a grid shape the same default orientation (all cells in one column of rows)"""
     ctx.rule(rule, 'record and memory-mapped reader of a format use the same default (rows, cols) when no grid shape is given')
@@ -544,6 +575,7 @@ def check_default_shape(ctx, rule='R-DEFSHAPE'):
 def run(ctx):
     check_scan_siblings(ctx)
     check_default_shape(ctx)
+    check_step_length(ctx)
     for r, d in (('R-FMTTABLE', 'uamiv: struct strings of Read.py == word sequence of the Memmap.py layouts'),
                  ('R-IDWORDS', "met formats: id_fmt 'fi' == memmap usage of words 1:3 (float time, integer date), data 3:-1"),
                  ('R-STEPID', 'time-step detection compares both identifier words'),
